@@ -1499,9 +1499,13 @@ void C2sStreamManager::onResumed(const SmResumed &resumed)
     q->streamAckManager().resumeStreamManagement(resumed.h);
 }
 
-void C2sStreamManager::onResumeFailed(const SmFailed &)
+void C2sStreamManager::onResumeFailed(const SmFailed &failed)
 {
     q->debug(u"Stream resumption failed"_s);
+    // the session is gone, but the server may tell how many of our stanzas it had handled
+    if (failed.h) {
+        q->streamAckManager().setHandledByFailedSession(*failed.h);
+    }
 }
 
 bool C2sStreamManager::setResumeAddress(const QString &address)
